@@ -187,24 +187,31 @@ func classify(hdr []*entry, body []*bodyElem) string {
 				individually = true
 				break
 			}
-			if bytes.Equal(e.h.Hash, b.hash) {
-				hashSeen = true
-				var d []string
-				if e.h.SenderShardID != b.mb.SenderShardID {
-					d = append(d, "SenderShardID")
-				}
-				if e.h.ReceiverShardID != b.mb.ReceiverShardID {
-					d = append(d, "ReceiverShardID")
-				}
-				if e.h.Type != b.mb.Type {
-					d = append(d, "Type")
-				}
-				if e.h.TxCount != uint32(len(b.mb.TxHashes)) {
-					d = append(d, "TxCount")
-				}
-				if best == nil || len(d) < len(best) {
-					best = d
-				}
+			if !bytes.Equal(e.h.Hash, b.hash) {
+				continue
+			}
+			hashSeen = true
+			// root-cause isolation by minimisation: is this mismatching entry accepted by the
+			// real function on its own (header = [entry], body = [miniblock])?
+			if procblock.VerifC19CheckHeaderBodyCorrelation(marsh, hasher, []block.MiniBlockHeader{e.h},
+				&block.Body{MiniBlocks: []*block.MiniBlock{b.mb}}) != nil {
+				continue
+			}
+			var d []string
+			if e.h.SenderShardID != b.mb.SenderShardID {
+				d = append(d, "SenderShardID")
+			}
+			if e.h.ReceiverShardID != b.mb.ReceiverShardID {
+				d = append(d, "ReceiverShardID")
+			}
+			if e.h.Type != b.mb.Type {
+				d = append(d, "Type")
+			}
+			if e.h.TxCount != uint32(len(b.mb.TxHashes)) {
+				d = append(d, "TxCount")
+			}
+			if best == nil || len(d) < len(best) {
+				best = d
 			}
 		}
 		if individually {
@@ -213,7 +220,10 @@ func classify(hdr []*entry, body []*bodyElem) string {
 		if !hashSeen {
 			return "miniblock-hash-not-in-header-accepted"
 		}
-		w := "header-entry-differs-in-" + strings.Join(best, "+")
+		w := "mismatching-entries-accepted-only-in-combination"
+		if best != nil {
+			w = "header-entry-differs-in-" + strings.Join(best, "+")
+		}
 		if worst == "" || w < worst {
 			worst = w
 		}
@@ -354,7 +364,7 @@ func runCase(c *mc.Ctx, cl *collector, p *part, hi, bi int, hl, bl []int, outcom
 			bd = append(bd, describeElem(be))
 		}
 		return map[string]interface{}{"header_miniblock_headers": hd, "body_miniblocks": bd,
-			"result": "checkHeaderBodyCorrelation returned nil", "reference": "no bijection header entries <-> body miniblocks with equal hash, sender, receiver, type, tx count"},
+				"result": "checkHeaderBodyCorrelation returned nil", "reference": "no bijection header entries <-> body miniblocks with equal hash, sender, receiver, type, tx count"},
 			replay{p.name, append([]int{}, hl...), append([]int{}, bl...)}
 	})
 }
